@@ -45,6 +45,23 @@ impl Exec {
 //@loop 2
         invariant out@ =~= env_text(self.config.env) + quote_of(self.command.lossy()) + args_text_n(self.args@, it.index@ as int),
 //@end
+
+//@fn exec::impl(fmt::Debug+for+Exec)::fmt vis=pub rename=debug_fmt
+//@rreplace 1 /write!\(f, "Exec \{\{ \{\} \}\}", self\.to_cmdline_lossy\(\)\)/ => /write_braced(f, "Exec", self.to_cmdline_lossy().as_str())/
+    ensures r is Ok ==> final(f).out@ =~= old(f).out@ + braced("Exec"@, cmdline_text(*self)), //[C19]
+//@end
+}
+impl Pipeline {
+//@fn pipeline::impl(fmt::Debug+for+Pipeline)::fmt vis=pub rename=debug_fmt
+//@rreplace 1 /vec!\[\]/ => /Vec::<String>::new()/
+//@rreplace 1 /for cmd in &self\.cmds/ => /for cmd in it: &self.cmds/
+//@rreplace 1 /write!\(f, "Pipeline \{\{ \{\} \}\}", args\.join\(" \| "\)\)/ => /proof { assert(views_of(args@) =~= texts_of(self.cmds@)); } write_braced(f, "Pipeline", join_strings(&args, " | ").as_str())/
+    ensures
+        // the stages appear in order, each as its own command line, joined by the separator " | "
+        r is Ok ==> final(f).out@ =~= old(f).out@ + braced("Pipeline"@, join_n(texts_of(self.cmds@), " | "@, self.cmds@.len() as int)), //[C19]
+//@loop 0
+        invariant args@.len() == it.index@, forall|j: int| 0 <= j < args@.len() ==> (#[trigger] args@[j])@ == cmdline_text(self.cmds@[j]),
+//@end
 }
 } // verus!
 fn main() {}
